@@ -1,7 +1,7 @@
 (* ClientConnProof.v — invariants of the HostClient and PipelineClient connection models (Model/ClientConn.v) over all reachable
    states, for any number of threads, connections and any server behaviour. *)
 From Coq Require Import Lia.
-From FH Require Import Model.Base Model.ClientConn.
+From FH Require Import Model.Base Model.ClientConn Spec.ClientConnSpec.
 Open Scope nat_scope.
 Open Scope list_scope.
 
@@ -43,23 +43,33 @@ Proof. unfold twire, wire. cbn. destruct (no_wire_body k (r_head r)); reflexivit
 (* ---- the reader ---------------------------------------------------------------------------------------------------------------- *)
 (* reading the head of one's own response *)
 Lemma after_head_ok t k r max skip stream dd tl :
-  wf_resp r = true -> skip = is_head k ->
+  wf_resp r = true -> (is_head k = true -> skip = true) ->
   tl = (if no_wire_body k (r_head r) then [] else tag t (body_syms r)) ->
   match after_head max skip stream (r_head r) with
   | RMore p1 => no_wire_body k (r_head r) = false /\ ph_ok t stream dd p1 r tl
-  | RDone body => tl = [] /\ (body = true -> no_wire_body k (r_head r) = false)
+  | RDone body =>
+      (tl = [] \/ (skip = true /\ is_head k = false /\ body = false /\ h_nobody (r_head r) = false /\ h_fr (r_head r) <> FLen 0)) /\
+      (body = true -> no_wire_body k (r_head r) = false)
   | RFail _ => True
   end.
 Proof.
-  intros Hwf Hskip ->. unfold after_head, no_wire_body. subst skip.
-  destruct (is_head k) eqn:Hk; cbn [orb]; [split; [reflexivity|discriminate]|].
-  destruct (h_nobody (r_head r)) eqn:Hn; cbn [orb]; [split; [reflexivity|discriminate]|].
+  intros Hwf Hskip ->. unfold after_head, no_wire_body.
+  destruct (h_nobody (r_head r)) eqn:Hn; [rewrite !orb_true_r; split; [left; reflexivity|discriminate]|].
+  rewrite !orb_false_r.
+  destruct skip.
+  { split; [|discriminate]. destruct (is_head k) eqn:Hk; [left; reflexivity|].
+    unfold wf_resp, body_syms in *. destruct (h_fr (r_head r)) as [[|n]| |] eqn:Hfr.
+    - left. apply Nat.eqb_eq in Hwf. destruct (r_body r); [reflexivity|discriminate].
+    - right. repeat split; auto. discriminate.
+    - right. repeat split; auto. discriminate.
+    - right. repeat split; auto. discriminate. }
+  destruct (is_head k) eqn:Hk; [specialize (Hskip eq_refl); discriminate|].
   unfold wf_resp, body_syms in *. destruct (h_fr (r_head r)) eqn:Hfr.
   - apply Nat.eqb_eq in Hwf. rewrite app_nil_r.
     destruct (too_large max n).
     + destruct stream; [|exact I]. split; [reflexivity|]. cbn. rewrite tag_length, map_length. intuition discriminate.
     + destruct n.
-      * destruct (r_body r); [|discriminate]. cbn. auto.
+      * destruct (r_body r); [|discriminate]. cbn. split; [left; reflexivity|reflexivity].
       * split; [reflexivity|]. cbn. rewrite tag_length, map_length. intuition discriminate.
   - destruct stream; (split; [reflexivity|]); cbn.
     + split; [reflexivity|]. right. split; [eexists; reflexivity|discriminate].
@@ -94,7 +104,7 @@ Definition thread_ok (ans : option resp) (t : nat) (th : thread) : Prop :=
   match th with
   | TNone => True
   | TRun x p k =>
-      skip_safe (x_opts x) = true /\
+      True /\
       match p with
       | PAcq => clean k /\ x_got x = []
       | PHead => x_got x = [] /\
@@ -130,39 +140,39 @@ Proof. revert i. induction l as [|a l IH]; intros [|i]; cbn; intuition eauto. de
 Lemma nth_error_replace_nth {A} i (v : A) l : i < length l -> In v (replace_nth i v l).
 Proof. revert i. induction l as [|a l IH]; intros [|i]; cbn; try lia; auto. intros. right. apply IH. lia. Qed.
 
-Lemma eff_skip_safe o : skip_safe o = true -> eff_skip o = is_head (o_kind o).
-Proof. unfold skip_safe, eff_skip. destruct (o_skip o), (is_head (o_kind o)); cbn; congruence. Qed.
-
 Lemma resp_close_ident h : h_fr h = FIdent -> h_nobody h = false -> resp_close h = true.
 Proof. unfold resp_close. intros -> ->. apply orb_true_r. Qed.
 
 Lemma no_wire_body_false k h : no_wire_body k h = false -> is_head k = false /\ h_nobody h = false.
 Proof. unfold no_wire_body. apply orb_false_elim. Qed.
 
+Lemma close_conn_resp x h : x_head x = Some h -> resp_close h = true -> close_conn x = true.
+Proof. unfold close_conn. intros -> ->. cbn. apply orb_true_r. Qed.
+
 (* the tail of RoundTrip *)
 Lemma finish_inv s t x k body r :
-  Inv s -> skip_safe (x_opts x) = true ->
+  Inv s -> True ->
   c_outb k = [] -> answered (s_ans s t) t x (pend k) r -> x_head x = Some (r_head r) ->
   (body = true -> no_wire_body (o_kind (x_opts x)) (r_head r) = false) ->
-  (* either everything was consumed, or an until-close body ended at the peer's EOF *)
-  (pend k = [] \/ (o_stream (x_opts x) = false /\ h_fr (r_head r) = FIdent /\ h_nobody (r_head r) = false)) ->
+  (* everything was consumed, or an until-close body ended at the peer's EOF, or (repaired code) a skipped body forces a close *)
+  (pend k = [] \/ (o_stream (x_opts x) = false /\ h_fr (r_head r) = FIdent /\ h_nobody (r_head r) = false) \/
+   (body = false /\ o_skip (x_opts x) = true /\ close_conn x = true)) ->
   Inv (finish s t x k body).
 Proof.
   intros HI Hsafe Hout Hans Hh Hbody Hrest. unfold finish.
   destruct (o_stream (x_opts x) && body) eqn:Hsb.
   - apply andb_true_iff in Hsb as [Hs Hb]. apply inv_set_thr0; [exact HI|]. cbn. split; [exact Hsafe|].
     split; [exact Hout|]. exists r. split; [exact Hans|]. split; [exact Hh|]. split; [auto|]. cbn. split; [exact Hs|].
-    destruct Hrest as [Hr|[Hr _]]; [exact Hr|congruence].
+    destruct Hrest as [Hr|[[Hr _]|[Hr _]]]; [exact Hr|congruence|congruence].
   - assert (Hdone : forall kept, thread_ok (s_ans s t) t (TDone x OOk kept)).
-    { intros kept. cbn. exists r, (pend k). split; [exact Hans|]. intros Hs _ Hfr.
-      destruct Hrest as [Hr|(_ & Hr & _)]; [exact Hr|contradiction]. }
+    { intros kept. cbn. exists r, (pend k). split; [exact Hans|]. intros Hs Hk Hfr.
+      destruct Hrest as [Hr|[(_ & Hr & _)|(_ & Hr & _)]]; [exact Hr|contradiction|congruence]. }
     destruct (close_conn x) eqn:Hcc.
     + apply inv_set_thr0; [exact HI|apply Hdone].
     + apply inv_set_thr; [exact HI| |apply Hdone].
       intros k' [<-|Hin]; [|apply HI; exact Hin]. split; [exact Hout|].
-      destruct Hrest as [Hr|(_ & Hfr & Hnb)]; [apply quiet_of_pend; exact Hr|].
-      exfalso. unfold close_conn in Hcc. rewrite Hh, (resp_close_ident _ Hfr Hnb) in Hcc.
-      rewrite !orb_true_r in Hcc. discriminate.
+      destruct Hrest as [Hr|[(_ & Hfr & Hnb)|(_ & _ & Hc)]]; [apply quiet_of_pend; exact Hr| |congruence].
+      exfalso. rewrite (close_conn_resp _ _ Hh (resp_close_ident _ Hfr Hnb)) in Hcc. discriminate.
 Qed.
 
 Lemma pend_set_inb k a rest : c_inb k = a :: rest -> pend k = a :: pend (set_inb k rest).
@@ -194,8 +204,10 @@ Proof.
     destruct Ht as [Hgot [[Hout Hq]|[Hout [r (Ha & Hwf & Heq)]]]].
     { destruct Hq as [Hq _]. congruence. }
     rewrite Hgot, Hpend, twire_cons in Heq. cbn [app] in Heq. injection Heq as -> -> Htl.
-    cbn [rd_sym]. rewrite (eff_skip_safe _ Hsafe).
-    pose proof (after_head_ok t (o_kind (x_opts x)) r (s_max s) _ (o_stream (x_opts x)) (dead k1) _ Hwf eq_refl Htl) as Hah.
+    cbn [rd_sym].
+    assert (Hsk : is_head (o_kind (x_opts x)) = true -> eff_skip (x_opts x) = true).
+    { unfold eff_skip. intros ->. apply orb_true_r. }
+    pose proof (after_head_ok t (o_kind (x_opts x)) r (s_max s) _ (o_stream (x_opts x)) (dead k1) _ Hwf Hsk Htl) as Hah.
     assert (Hans1 : answered (s_ans s t) t x1 (pend k1) r).
     { split; [exact Ha|]. split; [exact Hwf|]. subst x1. cbn [x_got x_opts add_got set_head]. rewrite Hgot, twire_cons, <- Htl. reflexivity. }
     destruct (after_head _ _ _ _) as [p1|body|e] eqn:Hahd.
@@ -204,6 +216,13 @@ Proof.
       { destruct p1; cbn in Hph; try contradiction; exact I. }
       destruct p1; try contradiction; (split; [exact Hout|]); exists r; (split; [exact Hans1|]); (split; [reflexivity|]); (split; [exact Hnw|]); exact Hph.
     + destruct Hah as [Hnil Hb]. apply finish_inv with (r := r); auto.
+      destruct Hnil as [Hnil|(Hes & Hk & -> & Hnb & Hfr)]; [left; exact Hnil|right; right].
+      assert (Hos : o_skip (x_opts x) = true).
+      { unfold eff_skip in Hes. rewrite Hk, orb_false_r in Hes. exact Hes. }
+      split; [reflexivity|]. split; [exact Hos|].
+      unfold close_conn. subst x1. cbn [x_head x_opts x_reset add_got set_head].
+      unfold skipped_body. rewrite Hos, Hk, Hnb. cbn.
+      destruct (h_fr (r_head r)) as [[|n]| |]; try contradiction; rewrite ?orb_true_r; reflexivity.
     + apply Hfail. unfold after_head in Hahd.
       repeat match type of Hahd with context [if ?c then _ else _] => destruct c end;
         repeat match type of Hahd with context [match ?c with _ => _ end] => destruct c end; congruence.
@@ -274,7 +293,7 @@ Proof. unfold srv_close, pend, quiet, dead. cbn. intuition. Qed.
 
 Lemma thread_outb ans t x p k :
   thread_ok ans t (TRun x p k) -> c_outb k <> [] ->
-  p = PHead /\ c_outb k = [mkReq t (o_kind (x_opts x))] /\ quiet k /\ x_got x = [] /\ skip_safe (x_opts x) = true.
+  p = PHead /\ c_outb k = [mkReq t (o_kind (x_opts x))] /\ quiet k /\ x_got x = [] /\ True.
 Proof.
   intros [Hsafe H] Hne. destruct p.
   - destruct H as [[H _] _]. contradiction.
@@ -290,7 +309,7 @@ Qed.
 
 Lemma stream_phase_facts ans t x p k :
   thread_ok ans t (TRun x p k) -> is_stream_phase p = true ->
-  skip_safe (x_opts x) = true /\ c_outb k = [] /\
+  True /\ c_outb k = [] /\
   exists r, answered ans t x (pend k) r /\ x_head x = Some (r_head r) /\
             no_wire_body (o_kind (x_opts x)) (r_head r) = false /\ ph_ok t (o_stream (x_opts x)) (dead k) p r (pend k).
 Proof. intros [Hsafe H] Hs. destruct p; try discriminate; (split; [exact Hsafe|]); exact H. Qed.
@@ -301,11 +320,11 @@ Proof. destruct p; cbn; try discriminate; intuition. Qed.
 Lemma length_zero_nil {A} (l : list A) : length l = 0 -> l = [].
 Proof. destruct l; [reflexivity|discriminate]. Qed.
 
-Lemma step_inv s l s1 : Inv s -> label_safe l = true -> step s l = Some s1 -> Inv s1.
+Lemma step_inv s l s1 : Inv s -> step s l = Some s1 -> Inv s1.
 Proof.
-  intros HI Hsafe Hstep. destruct l as [t o from|t reset|t e|t|t|t|t|t werr|l r|l|l|i]; cbn [step] in Hstep.
+  intros HI Hstep. pose proof I as Hsafe. destruct l as [t o from|t reset|t e|t|t|t|t|t werr|l r|l|l|i]; cbn [step] in Hstep.
   - (* LAcquire *)
-    destruct (s_thr s t) eqn:Hth; try discriminate. cbn in Hsafe.
+    destruct (s_thr s t) eqn:Hth; try discriminate.
     destruct from as [i|].
     + destruct (nth_error (s_idle s) i) as [k|] eqn:Hn; [|discriminate]. injection Hstep as <-.
       apply inv_set_thr; [exact HI|intros k' Hk'; apply HI; eapply In_remove_nth; eauto|].
@@ -331,7 +350,7 @@ Proof.
     destruct (s_thr s t) as [|x p k|] eqn:Hth; try discriminate. destruct p; try discriminate.
     destruct (c_inb k) eqn:Hinb; [|discriminate]. destruct (c_srvclosed k) eqn:Hc; [|discriminate]. injection Hstep as <-.
     pose proof (proj2 HI t) as Ht. rewrite Hth in Ht. destruct Ht as [Hs [Ho [r (Ha & Hh & Hn & Hst & Hfr)]]].
-    apply finish_inv with (r := r); auto. right. repeat split; auto. apply (no_wire_body_false _ _ Hn).
+    apply finish_inv with (r := r); auto. right. left. repeat split; auto. apply (no_wire_body_false _ _ Hn).
   - (* LStreamRead *)
     destruct (s_thr s t) as [|x p k|] eqn:Hth; try discriminate.
     destruct (c_inb k) as [|[tg sy] rest] eqn:Hinb; [discriminate|].
@@ -392,8 +411,8 @@ Proof.
       * destruct e; [|discriminate]. destruct Hph as (_ & [[Hnil _]|[_ He]]).
         -- apply quiet_of_pend, Hnil.
         -- apply quiet_of_dead, He. reflexivity.
-      * exfalso. destruct Hph as [_ Hfr]. unfold close_conn in Hcc.
-        rewrite Hh, (resp_close_ident _ Hfr (proj2 (no_wire_body_false _ _ Hn))) in Hcc. rewrite !orb_true_r in Hcc. discriminate.
+      * exfalso. destruct Hph as [_ Hfr].
+        rewrite (close_conn_resp _ _ Hh (resp_close_ident _ Hfr (proj2 (no_wire_body_false _ _ Hn)))) in Hcc. discriminate.
   - (* LSrvRead *)
     destruct (conn_at s l) as [k|] eqn:Hc; [|discriminate].
     destruct (srv_read k r) as [[k1 q]|] eqn:Hr; [|discriminate]. injection Hstep as <-.
@@ -439,7 +458,7 @@ Qed.
 Lemma inv_init max : Inv (init max).
 Proof. split; [intros k []|intros t; exact I]. Qed.
 
-Lemma inv_reach_g max s : reach_g max s -> Inv s.
+Lemma inv_reach max s : reach max s -> Inv s.
 Proof. induction 1; [apply inv_init|eapply step_inv; eauto]. Qed.
 
 (* ---- HostClient: the theorems ------------------------------------------------------------------------------------------------ *)
@@ -454,14 +473,6 @@ Proof.
   destruct (step s l) eqn:E; [eapply reach_step; eauto|exact Hr].
 Qed.
 
-(* the symbols a call has been given, once Do has returned nil (a streamed body keeps growing until it is closed) *)
-Definition delivered (s : st) (t : nat) : option (opts * list tsym) :=
-  match s_thr s t with
-  | TDone x OOk _ => Some (x_opts x, x_got x)
-  | TRun x p _ => if is_stream_phase p then Some (x_opts x, x_got x) else None
-  | _ => None
-  end.
-
 Lemma prefix_tags t k r g rest : g ++ rest = twire t k r -> Forall (fun ts => fst ts = t) g.
 Proof.
   intros H. assert (Ha : Forall (fun ts : tsym => fst ts = t) (twire t k r)).
@@ -469,15 +480,12 @@ Proof.
   rewrite <- H in Ha. apply Forall_app in Ha. apply Ha.
 Qed.
 
-Lemma pooled_clean max s : reach_g max s -> forall k, In k (s_idle s) -> clean k.
-Proof. intros Hr. exact (proj1 (inv_reach_g _ _ Hr)). Qed.
+Lemma pooled_clean max s : reach max s -> pool_clean s.
+Proof. intros Hr. exact (proj1 (inv_reach _ _ Hr)). Qed.
 
-Lemma own_response max s t o g :
-  reach_g max s -> delivered s t = Some (o, g) ->
-  (exists r rest, s_ans s t = Some r /\ wf_resp r = true /\ g ++ rest = twire t (o_kind o) r) /\
-  Forall (fun ts => fst ts = t) g.
+Lemma own_response_inv s t o g : Inv s -> delivered s t = Some (o, g) -> response_of s t o g /\ all_own t g.
 Proof.
-  intros Hr Hd. pose proof (proj2 (inv_reach_g _ _ Hr) t) as Ht. unfold delivered in Hd.
+  intros HI Hd. pose proof (proj2 HI t) as Ht. unfold delivered in Hd.
   assert (H : exists r rest, s_ans s t = Some r /\ wf_resp r = true /\ g ++ rest = twire t (o_kind o) r).
   { destruct (s_thr s t) as [|x p k|x oc kept] eqn:Hth; [discriminate| |].
     - destruct (is_stream_phase p) eqn:Hsp; [|discriminate]. injection Hd as <- <-.
@@ -485,18 +493,20 @@ Proof.
     - destruct oc; try discriminate. injection Hd as <- <-. destruct Ht as (r & rest & Ha & _). exists r, rest. exact Ha. }
   split; [exact H|]. destruct H as (r & rest & _ & _ & H). eapply prefix_tags; eauto.
 Qed.
+Lemma own_response max s t o g : reach max s -> delivered s t = Some (o, g) -> response_of s t o g /\ all_own t g.
+Proof. intros Hr. apply own_response_inv, (inv_reach _ _ Hr). Qed.
 
 Lemma own_response_complete max s t x kept :
-  reach_g max s -> s_thr s t = TDone x OOk kept ->
+  reach max s -> s_thr s t = TDone x OOk kept ->
   o_stream (x_opts x) = false -> o_skip (x_opts x) = false ->
   exists r, s_ans s t = Some r /\ (h_fr (r_head r) <> FIdent -> x_got x = twire t (o_kind (x_opts x)) r).
 Proof.
-  intros Hr Hth Hs Hk. pose proof (proj2 (inv_reach_g _ _ Hr) t) as Ht. rewrite Hth in Ht.
+  intros Hr Hth Hs Hk. pose proof (proj2 (inv_reach _ _ Hr) t) as Ht. rewrite Hth in Ht.
   destruct Ht as (r & rest & (Ha & _ & Heq) & Hc). exists r. split; [exact Ha|]. intros Hfr.
   rewrite (Hc Hs Hk Hfr), app_nil_r in Heq. exact Heq.
 Qed.
 
-(* the finding: with resp.SkipBody on a GET the body stays on a pooled connection and becomes the next call's response *)
+(* the history that used to poison the pool (GET with resp.SkipBody, crafted body), kept for the examples *)
 Definition skip_get : opts := mkOpts KGet false false true.
 Definition plain_get : opts := mkOpts KGet false false false.
 Definition crafted_resp : resp :=
@@ -505,22 +515,6 @@ Definition witness_trace : list label :=
   [LAcquire 0 skip_get None; LWrite 0 false; LSrvRead (HeldBy 0) crafted_resp; LSrvSend (HeldBy 0); LRead 0;
    LSrvSend (AtIdle 0); LSrvSend (AtIdle 0);
    LAcquire 1 plain_get (Some 0); LWrite 1 false; LRead 1; LRead 1].
-
-Lemma pooled_clean_refuted :
-  exists s, reach 0 s /\ exists k, In k (s_idle s) /\ ~ clean k.
-Proof.
-  exists (exec (init 0) (firstn 7 witness_trace)). split; [apply exec_reach, reach_init|].
-  exists (mkConn 0 [] [(0, SBody (Some (mkHead (FLen 1) false false))); (0, SBody None)] [] false).
-  split; [vm_compute; left; reflexivity|]. intros [_ [H _]]. discriminate.
-Qed.
-
-Lemma own_response_refuted :
-  exists s t o g, reach 0 s /\ delivered s t = Some (o, g) /\ g <> [] /\ Forall (fun ts => fst ts <> t) g.
-Proof.
-  exists (exec (init 0) witness_trace), 1, plain_get, [(0, SBody (Some (mkHead (FLen 1) false false))); (0, SBody None)].
-  split; [apply exec_reach, reach_init|]. split; [vm_compute; reflexivity|]. split; [discriminate|].
-  repeat constructor; cbn; discriminate.
-Qed.
 
 (* ---- PipelineClient ------------------------------------------------------------------------------------------------------------ *)
 Definition rd_items (s : pst) : list pitem := match p_rd s with RHold it _ _ => [it] | _ => [] end.
@@ -691,7 +685,7 @@ Proof.
         destruct A as [|[it' r] A']; [discriminate|]. cbn in H1. injection H1 as -> H1.
         rewrite wires_cons in H5. unfold wire_of at 1 in H5. cbn [fst snd] in H5. rewrite twire_cons in H5. cbn [app] in H5.
         injection H5 as -> -> H5. destruct (H4 (it, r) (or_introl eq_refl)) as (Hwf & _ & _). cbn in Hwf.
-        pose proof (after_head_ok (p_id it) (p_kind it) r 0 (p_skip it) false False _ Hwf eq_refl eq_refl) as Hah.
+        pose proof (after_head_ok (p_id it) (p_kind it) r 0 (p_skip it) false False _ Hwf (fun H => H) eq_refl) as Hah.
         cbn [rd_sym] in Hrd0. rewrite Hrd0 in Hah. destruct Hah as [Hnw Hph].
         apply (Hmore p1 ((it, r) :: A')); [destruct p1; cbn in Hph; try contradiction; discriminate| |reflexivity].
         exists r, A', (if no_wire_body (p_kind it) (r_head r) then [] else tag (p_id it) (body_syms r)).
@@ -719,8 +713,8 @@ Proof.
         destruct A as [|[it' r] A']; [discriminate|]. cbn in H1. injection H1 as -> H1.
         rewrite wires_cons in H5. unfold wire_of at 1 in H5. cbn [fst snd] in H5. rewrite twire_cons in H5. cbn [app] in H5.
         injection H5 as -> -> H5. destruct (H4 (it, r) (or_introl eq_refl)) as (Hwf & _ & _). cbn in Hwf.
-        pose proof (after_head_ok (p_id it) (p_kind it) r 0 (p_skip it) false False _ Hwf eq_refl eq_refl) as Hah.
-        cbn [rd_sym] in Hrd0. rewrite Hrd0 in Hah. destruct Hah as [Hnil _].
+        pose proof (after_head_ok (p_id it) (p_kind it) r 0 (p_skip it) false False _ Hwf (fun H => H) eq_refl) as Hah.
+        cbn [rd_sym] in Hrd0. rewrite Hrd0 in Hah. destruct Hah as [[Hnil|(Hsk & Hk & _)] _]; [|unfold p_skip in Hsk; congruence].
         apply (Hdone r A'); [reflexivity| |].
         -- rewrite H5. apply (f_equal (fun l => l ++ wires A')) in Hnil. exact Hnil.
         -- rewrite twire_cons. apply (f_equal (fun l => (p_id it, SHead (r_head r)) :: l)) in Hnil. symmetry. exact Hnil.
@@ -736,7 +730,6 @@ Proof.
         pose proof (rd_body_ok (p_id it) 0 (p_skip it) false False _ r tg sy rest' Hph eq_refl) as Hb.
         rewrite Hrd0 in Hb. destruct Hb as [-> _].
         apply (Hdone r A'); [reflexivity|exact Hp|exact Hg].
-      * destruct (too_large 0 (S cnt)); discriminate.
     + apply Hfail. eapply rd_sym_fail_not_ok; eauto.
   - (* PRReadEof *)
     destruct (p_rd s) as [| |it p got] eqn:Hr; try discriminate. destruct p; try discriminate.
@@ -769,10 +762,11 @@ Proof.
     split.
     { intros id kd g H. cbn in H. destruct (HD id kd g H) as (r0 & Hl & Hrest). exists r0. split; [|exact Hrest].
       cbn. apply in_or_app. left. exact Hl. }
-    cbn. destruct HC as [HC|HC]; [left; exact HC|right].
+    cbn [p_conn p_set_ans p_set_conn p_rd]. destruct HC as [HC|HC]; [left; exact HC|right].
     destruct HC as (A & B & D & H1 & H2 & H3 & H4 & H5).
-    destruct B as [|b B']; [discriminate|]. cbn in H3. injection H3 as -> H3.
-    exists (A ++ [(b, r)]), B', D. unfold inflight, rd_items, wr_items in *. cbn.
+    rewrite Hob in H3. destruct B as [|b B']; [discriminate|]. cbn [map] in H3. injection H3 as -> H3.
+    exists (A ++ [(b, r)]), B', D. unfold inflight, rd_items, wr_items in *.
+    cbn [p_rd p_chR p_wr p_dead p_log p_set_ans p_set_conn p_conn c_outb].
     assert (Hpe : pend (mkConn (c_id k) rest0 (c_inb k) (c_srvq k ++ twire (p_id b) (p_kind b) r) false) = pend k ++ wire_of (b, r)).
     { unfold pend, wire_of. cbn. rewrite app_assoc. reflexivity. }
     peq_split.
@@ -797,9 +791,9 @@ Proof.
   - (* PSrvClose *)
     destruct (p_conn s) as [k|] eqn:Hc; [|discriminate]. injection Hstep as <-.
     destruct (srv_close_facts k) as (Ho & Hp & _).
-    split; [exact HD|]. cbn. destruct HC as [HC|HC]; [left; exact HC|right].
-    destruct HC as (A & B & D & H1 & H2 & H3 & H4 & H5). exists A, B, D. unfold inflight, rd_items, wr_items in *. cbn.
-    rewrite Ho, Hp. peq_split; auto.
+    split; [exact HD|]. cbn [p_conn p_set_conn p_rd]. destruct HC as [HC|HC]; [left; exact HC|right].
+    destruct HC as (A & B & D & H1 & H2 & H3 & H4 & H5). exists A, B, D. unfold inflight, rd_items, wr_items in *.
+    cbn [p_rd p_chR p_wr p_dead p_log p_set_conn]. rewrite Ho, Hp. peq_split; auto.
 Qed.
 
 Lemma pinv_init : PInv pinit.
@@ -809,6 +803,22 @@ Lemma pinv_reach s : preach s -> PInv s.
 Proof. induction 1; [apply pinv_init|eapply pstep_inv; eauto]. Qed.
 
 Lemma pipeline_own_response s id kd g :
-  preach s -> p_done s id = Some (kd, OOk, g) ->
-  exists r, In (id, r) (p_log s) /\ wf_resp r = true /\ g = twire id kd r.
+  preach s -> p_done s id = Some (kd, OOk, g) -> p_response_of s id kd g.
 Proof. intros Hr. exact (proj1 (pinv_reach _ Hr) id kd g). Qed.
+
+Lemma pipeline_head_no_body s id g :
+  preach s -> p_done s id = Some (KHead, OOk, g) -> exists h, g = [(id, SHead h)].
+Proof.
+  intros Hr Hd. destruct (pipeline_own_response _ _ _ _ Hr Hd) as (r & _ & _ & ->). exists (r_head r). reflexivity.
+Qed.
+
+Fixpoint pexec (s : pst) (tr : list plabel) : pst :=
+  match tr with
+  | [] => s
+  | l :: rest => pexec (match pstep s l with Some s1 => s1 | None => s end) rest
+  end.
+Lemma pexec_reach tr : forall s, preach s -> preach (pexec s tr).
+Proof.
+  induction tr as [|l tr IH]; intros s Hr; cbn; [exact Hr|]. apply IH.
+  destruct (pstep s l) eqn:E; [eapply preach_step; eauto|exact Hr].
+Qed.
